@@ -586,6 +586,10 @@ func c06NoHang(c *Check, fns []*ssa.Function) {
 			}
 		})
 	}
+	// a file with syntax errors fails: the parser guard structure (recover
+	// barrier, error listener that records every report, tree returned only
+	// without errors) is the same clause as under C01
+	c01GuardStructure(c)
 	c06StrictDecode(c)
 	set := map[*ssa.Function]bool{}
 	for _, f := range fns {
